@@ -20,6 +20,8 @@ package fiber
 //   A depth 1: root = [<=1 route of R] ++ mount(p in P, sub) ++ [<=1 route of R], sub = any list of <= 2 routes of R,
 //              mounted by app.Use(p, sub); with <= 1 sibling also by app.Group("/").Use(p, sub), app.Group(p).Use(sub)
 //              and app.Group("/a").Use(p, sub)
+//   E wildcards: root = mount(p, sub) ++ [Get("/x")?], sub = one of {Get("/"), Use(mw), Get("/*"), Use("/*", mw)} followed by
+//              nothing or one of {Get("/"), Get("/x"), Get("/*"), Use("/*", mw)}; the trace also records Params("*")
 //   B two mounts: root = mount(p, s1) ++ mount(q, s2), s1 and s2 of <= 1 route, p, q in P
 //   C depth 2: root = mount(p1, sub) alone or Use(mw) ++ mount(p1, sub) ++ Get("/x"); sub = <= 1 route of R with
 //              mount(p2, leaf) before or after it; leaf = any list of <= 2 routes of R
@@ -83,7 +85,11 @@ var (
 
 func fvcC04Handler(label string, endpoint bool) Handler {
 	return func(c Ctx) error {
-		fvcC04Trace = append(fvcC04Trace, label+"("+c.Params("id")+","+c.Params("p")+")")
+		obs := label + "(" + c.Params("id") + "," + c.Params("p") + ")"
+		if w := c.Params("*"); w != "" {
+			obs += "*" + w
+		}
+		fvcC04Trace = append(fvcC04Trace, obs)
 		if !endpoint || fvcC04Pass {
 			return c.Next()
 		}
@@ -92,7 +98,7 @@ func fvcC04Handler(label string, endpoint bool) Handler {
 }
 
 func fvcC04RouteName(k int) string {
-	return [...]string{`Get("/")`, `Get("/x")`, `Get("/:id")`, `Use("/x",mw)`, `Use(mw)`}[k]
+	return [...]string{`Get("/")`, `Get("/x")`, `Get("/:id")`, `Use("/x",mw)`, `Use(mw)`, `Get("/*")`, `Use("/*",mw)`}[k]
 }
 
 func fvcC04Register(r Router, kind int, label string) {
@@ -107,6 +113,10 @@ func fvcC04Register(r Router, kind int, label string) {
 		r.Use("/x", fvcC04Handler(label, false))
 	case 4:
 		r.Use(fvcC04Handler(label, false))
+	case 5:
+		r.Get("/*", fvcC04Handler(label, true))
+	case 6:
+		r.Use("/*", fvcC04Handler(label, false))
 	}
 }
 
@@ -485,6 +495,20 @@ func TestFVCBoundedC04MountEquiv(t *testing.T) {
 							}
 							s.checkTree(t, fvcC04Cat(pre, fvcC04M(p, style, fvcC04Cat(sub)), post), cfg, cfgNames[ci])
 						}
+					}
+				}
+			}
+		}
+		// ---- E: wildcard routes and the root route below a mount (the splice clears Route.star / Route.root) ----
+		for _, k1 := range []int{0, 4, 5, 6} {
+			for _, k2 := range []int{-1, 0, 1, 5, 6} {
+				for _, p := range prefixes {
+					for _, post := range [][]fvcC04Item{nil, opt[2]} {
+						sub := []fvcC04Item{{kind: k1}}
+						if k2 >= 0 {
+							sub = append(sub, fvcC04Item{kind: k2})
+						}
+						s.checkTree(t, fvcC04Cat(fvcC04M(p, 0, fvcC04Cat(sub)), post), cfg, cfgNames[ci])
 					}
 				}
 			}
